@@ -251,6 +251,10 @@ class Gen(object):
             a = [{"$": "tuple", "v": [gen_topic(rng, True), rng.randint(0, 2)]}]
         else:
             a = [[{"$": "tuple", "v": [gen_topic(rng, True), rng.randint(0, 2)]} for _ in range(rng.randint(1, 4))]]
+        if rng.random() < (0.04 if self.fam in ("subreq", "wire", "subscriber") else 0.01):
+            # one request naming very many topics: its SUBACK is a long packet as well
+            a = [{"$": "topics", "n": rng.choice([126, 127, 130, 253, 254, 255, 300, 1000]),
+                  "q": [rng.randint(0, 2) for _ in range(rng.randint(1, 3))], "p": rng.choice(["t/", "é/", "x"])}]
         st = {"op": "app.call", "addr": addr, "m": "subscribe", "a": a}
         if h:
             st["h"] = h
@@ -275,6 +279,8 @@ class Gen(object):
             a = [gen_topic(rng, True)]
         else:
             a = [[gen_topic(rng, True) for _ in range(rng.randint(1, 3))]]
+        if rng.random() < (0.03 if self.fam in ("subreq", "wire", "subscriber") else 0.01):
+            a = [{"$": "names", "n": rng.choice([127, 130, 300, 1000, 9000]), "p": rng.choice(["t/", "é/", "x"])}]
         st = {"op": "app.call", "addr": addr, "m": "unsubscribe", "a": a}
         if h:
             st["h"] = h
@@ -301,7 +307,13 @@ class Gen(object):
         if self.fam in ("wire", "subscriber") and rng.random() < 0.012:
             # remaining length that needs all four length bytes
             payload = {"$": "barep", "s": "j", "n": rng.choice([2097140, 2097152, 2097200])}
-        st = {"op": "brk.publish", "addr": addr, "qos": qos, "topic": gen_topic(rng), "payload": payload,
+        topic = gen_topic(rng)
+        if self.fam in ("wire", "subscriber", "general") and rng.random() < 0.02:
+            # topic names in the upper half of the 16-bit length range
+            ch = rng.choice(["a", "a", "é", "€"])
+            nb = rng.choice([32767, 32768, 32769, 40000, 65535])
+            topic = {"$": "rep", "s": ch, "n": nb // len(ch.encode("utf-8"))}
+        st = {"op": "brk.publish", "addr": addr, "qos": qos, "topic": topic, "payload": payload,
               "retain": rng.random() < 0.3, "dup": (rng.random() < 0.2 and qos > 0)}
         if mid is not None:
             st["id"] = mid
